@@ -35,6 +35,7 @@ OBLIGATIONS = {
     "more_than_10_files": "a directory with more than 10 block files was written to",
     "restart_between_batches": "a history had a process restart between two batches",
     "no_restart_between_batches": "a history ran two batches in the same process image",
+    "odd_directory_name": "a data directory whose name contains glob metacharacters / spaces / non-ASCII / a .dat suffix",
     "crash_torn_record": "a crash left a torn (partial) record",
     "crash_points": "crash points were met (open/write/flush/close intercepted)",
     "crash_during_rollover": "a crash happened between closing a full file and finishing the first record of the next",
@@ -191,7 +192,7 @@ def chk_step(case):
     """one transition: materialise layout, one real call, compare"""
     p2p = _p2p()
     L = case["L"]
-    path = os.path.join(scratch_dir(), "c19-step")
+    path = os.path.join(scratch_dir(), "c19-step-parent", case.get("dirname", "blocks"))
     layout = None if case["layout"] is None else {int(k): tuple(v) for k, v in case["layout"].items()}
     before, serial = materialise(path, layout)
     before.limit = L
@@ -278,6 +279,7 @@ class CrashEnv:
         self.torn = False
         self.real_open = builtins.open
         self.real_makedirs = os.makedirs
+        self.short_writes = 0
 
     def point(self, label):
         self.points += 1
@@ -301,7 +303,8 @@ class CrashEnv:
             return self.real_open(path, mode, *a, **kw)
         self.point(("open", os.path.basename(p), mode))
         real = self.real_open(path, mode, buffering=0)
-        f = CrashFile(real, self)
+        raw = (kw.get("buffering", a[0] if a else -1) == 0)
+        f = CrashFile(real, self, raw=raw)
         self.open_files.append(f)
         return f
 
@@ -329,15 +332,24 @@ class CrashEnv:
 class CrashFile:
     """models a buffered writer: data is pending until flush/close"""
 
-    def __init__(self, real, env):
+    def __init__(self, real, env, raw=False):
         self.real = real
         self.env = env
+        self.raw = raw       # opened unbuffered by the library: write() may legally transfer fewer bytes than asked
         self.pending = b""
         self.closed = False
         self.name = real.name
 
     def write(self, data):
         self.env.point(("write", len(data)))
+        if self.raw and len(data) > 1:
+            # a raw file object hands the data straight to write(2): a short count is a legal answer (quota, signal, pipe)
+            opts = [len(data), len(data) // 2, 1]
+            c = self.env.ctx.choose(3, costs=[0, 1, 1], label="short-write")
+            if c:
+                self.env.short_writes += 1
+            self.real.write(bytes(data)[:opts[c]])
+            return opts[c]
         self.pending += bytes(data)
         return len(data)
 
@@ -407,7 +419,7 @@ def crash_run(ctx, case, info=None):
         err = f"{type(e).__name__}: {e}"
     finally:
         env.uninstall()
-    obs = {"crashed": env.crashed, "points": env.points, "torn": env.torn, "err": err}
+    obs = {"crashed": env.crashed, "points": env.points, "torn": env.torn, "err": err, "short_writes": env.short_writes}
     if os.path.isdir(path):
         files, _ = R.read_dir(path)
         got = {no: data for no, (name, data) in files.items()}
@@ -428,6 +440,13 @@ def judge_crash(case, obs):
     out = []
     s, b, f = obs["stream"], obs["before"], obs["full"]
     tag = f"[crash at {obs['crashed']} in last batch of {case['batches']} on layout {case['layout']}, files {obs['sizes']}]"
+    if obs["crashed"] is None and obs.get("short_writes"):
+        # the OS transferred fewer bytes than asked on one write of an unbuffered file: the call must either complete the
+        # record itself or fail - it may not return normally with a torn record in the stream
+        if obs["err"] is None and s != f:
+            return [("C19/short-write/torn-record", f"a short write(2) count was ignored: the call returned normally but the files hold "
+                     f"{len(s)}B that are not the expected {len(f)}B record stream (last batch of {case['batches']} on layout {case['layout']})")]
+        return []
     if obs["crashed"] is None:
         return []   # no crash in this execution: the history part judges complete calls
     if not f.startswith(s):
@@ -478,6 +497,10 @@ def jobs(tier, seed):
                                "maxb": 2, "alpha": 5, "shard": [k, K], "weight": 60})
                 js.append({"name": f"bfs/L{L}/{rname}/d3b3", "part": "bfs", "L": L, "root": rname, "depth": 3, "maxb": 3,
                            "alpha": 4, "weight": 60})
+            if rname in ("emptydir", "twelve-full", "near-full"):
+                for di, dn in enumerate(["chain[regtest]", "blk*?.dat", "a b", "ünï.dat"] if tier == "thorough" or rname != "twelve-full" else ["chain[regtest]"]):
+                    js.append({"name": f"bfs/L{L}/{rname}/d2b2/dir{di}", "part": "bfs", "L": L, "root": rname, "depth": 2, "maxb": 2, "alpha": 5,
+                               "dirname": dn, "weight": 4})
             js.append({"name": f"crash/L{L}/{rname}", "part": "crash", "L": L, "root": rname,
                        "pre": 1 if tier == "quick" else 2, "weight": 10 if tier == "quick" else 80})
         nsh = 8 if tier == "quick" else 16
@@ -519,6 +542,9 @@ def run_job(job):
                     count_it = last_level or sh == 0
                     case = {"L": L, "layout": None if layout is None else {str(k): list(v) for k, v in layout.items()},
                             "batch": batch}
+                    if job.get("dirname"):
+                        case["dirname"] = job["dirname"]
+                        acc.ob("odd_directory_name")
                     if count_it:
                         acc.evaluations += 1
                         acc.transitions += 1
@@ -602,6 +628,12 @@ def run_job(job):
                 ex = Explorer(lambda ctx: crash_run(ctx, case0), bound=1, cache=False)
 
                 def check(ctx, obs):
+                    if obs.get("crashed") is None and obs.get("short_writes"):
+                        for key, desc in judge_crash(case0, obs):
+                            case = dict(case0)
+                            case["choices"] = ctx.choices
+                            acc.violation("crash", case, key, desc)
+                        return
                     if obs.get("crashed") is None:
                         if obs.get("points", 0) == 0:
                             nonlocal zero_points
